@@ -12,915 +12,734 @@ Definition show_fres (r : fres) : string :=
   end.
 Definition check (rs : list rune) : string := digest (show_fres (format_res rs)).
 Definition full (rs : list rune) : string := show_fres (format_res rs).
-Eval vm_compute in ("<<<M1705>>>" ++ check (runes_of_ascii "
-MetaData
-
-    asx
-    { char[] MetaDataX
-    ,
-    lengthOf
-Z9_ , crc Foo,
-	char[
-4294967296  ] BodyLength
-,
-
-Foo
-
-    leftPad `doc`
-
-    ,
-    tag // a // b
-
-  u128
-
-    ,
-    }
-
-root
-
-    packet 
-stringy
-{ 	 // trailing space 
-	match
-Header  as repeatCount
-
-{ [
-
-    ""{,}""] :
-
-    Header  
-      /// triple
-	//
-  ,
-
-    255 
-:
-
-    repeatCount,
-
-    00
-: 
-pack  , 1
-	: trueish ,
-
-    7
-	:
-
-A
-    } ,T
-{Z9_`
-` ,	}, int16 o
-    @calculatedFrom( ""it's"" )
-`line1
-line2`
-, match 
-zchar as
-
-    As { ""CRC32""
-:a1  ,42
-	:	Header
-
-[
-10
-	//
-]
-:
-zchar // trailing space 
-,
-} 	 // " ++ [128512]%N ++ runes_of_ascii " emoji
-	,	@tag( 
-42
-    )
-
-repeat
-    i64_  { 
-
-    // c
-  char[
-	00
-
-]  _x 
-`{ , }` 
-, }
-
-,repeat //x
-
-	char[]uint8x
-
-    `crlf
-line`
-
-,@leftPad(
-    '\x00') @tag( 
-7 
-)
-
-int32
-
-// a // b
-// @lengthOf(
-
-	repeatCount@calculatedFrom(
-
-    ""x y""
-    ) `// not a comment`
-	,u32
-zchar `
-`	,	repeat  stringy	{ 
-i8i8
-    lengthOf ,}
-
-    ,// packet A { u8 x, }
-  @calculatedFrom(
-    ""abc"")
-
-@lengthOf( tag  )@lengthOf( /// triple
-      rootA)	char[
-3
-]  // c
-
-	rootA
-`" ++ [233]%N ++ runes_of_ascii "` ,	// c
-}  MetaData crc	{
-
-float32
-asx
-	`" ++ [233]%N ++ runes_of_ascii "` ,
-
-string
-i64_ // " ++ [128512]%N ++ runes_of_ascii " emoji
-
-, }
-root
-packet
-
-Packet
-
-//
-{
-charz
-@lengthOf(
-    zchar  )  ,f32  f32a
-`{ , }` 	 // a // b
-		,
-i64
-matchKey @lengthOf(
-leftPad  )
-
-,	string trueish ,
-    @leftPad
-
-( 
-'0'  )
-        // trailing space 
-		tag
-	@lengthOf(// a // b
-
-string_
-)`doc`
-,match	stringy 
-        // @lengthOf(
-    // @lengthOf(
-	as 
-calculatedFrom
-
-    {[ 0123456789
-	] :repeatCount 
-	    //	t
-  	//
-  ,
-}  ,// trailing space 
-	  char[3
-] 
-Header,
-
-int64
-MetaDataX 
-, @leftPad
-
-(
-    )len
-
-    {  packetx  @lengthOf(	chars 
-)
-
-    ``	,	}
-, @rightPad (
-	'0'
-
-) x_y_z ,
-
-    }	options
-
-    { rootA 
-    // packet A { u8 x, }
-
-  //x
-  ='0'  ;
-	Foo=char;
-
-A=
-    zchar[0123456789
-
-] 
-// " ++ [27880; 37322]%N ++ runes_of_ascii "
-	//x
-    	;  packetx =
-
-    """ ++ [233]%N ++ runes_of_ascii "t" ++ [233]%N ++ runes_of_ascii """
-float =
-
-    true } 	 //x
-")).
-Eval vm_compute in ("<<<M1604>>>" ++ check (runes_of_ascii "packet asx {
-    leftPad @calculatedFrom(""" ++ [233]%N ++ runes_of_ascii "t" ++ [233]%N ++ runes_of_ascii """),
-    @leftPad('0')
-    // trailing space 
-    u8x As `crlf
+Eval vm_compute in ("<<<M1832>>>" ++ check (runes_of_ascii "packet Z9_ {
+    @calculatedFrom(""1"")
+    match body as u8x {
+        [7] : u,
+        [
+            7, 00, ""a\""b"", """", ""\n"",
+            00
+        ] : charz,
+        1 : Packet,
+        """ ++ [28040; 24687]%N ++ runes_of_ascii """ : f32a,
+        00 : len,
+    },
+    @lengthOf(calculatedFrom)
+    MetaDataX,
+    Packet @lengthOf(int),
+    repeat char[7] calculatedFrom,
+    @calculatedFrom(""a\\"")
+    zchar[255] f32a @calculatedFrom(""" ++ [233]%N ++ runes_of_ascii "t" ++ [233]%N ++ runes_of_ascii """),
+    @calculatedFrom(""a\""b"")
+    char[7] i8i8 @calculatedFrom(""a\\"") `crlf
     line`,
-    char[3] asx @calculatedFrom(""{,}""),
-    // @lengthOf(
-    // trailing space 
-    repeat u128 {
-        int {
-            packetx @calculatedFrom(""packet""),
-            match T as T {
-                ""a	b"" : o,
-            },
-            zchar[00] lengthOf `{ , }`,
-            /// triple
-            // trailing space 
-            char[] crc @calculatedFrom(""abc""),
-        },
-        Header @calculatedFrom(""" ++ [233]%N ++ runes_of_ascii "t" ++ [233]%N ++ runes_of_ascii """) `two words`,
-        repeat uint8 uint8x,
-        repeat char[0123456789] float `u8 x,`,
-    },
-    packetx x `say ""hi""`,
-    @rightPad()
-    i8i8 @calculatedFrom(""x y""),
+    zchar[0123456789] x `line1
+    line2`,
     @leftPad()
-    BodyLength {
-        repeat int32 _x ``,
-        i8 msg_type `doc`,
+    repeat u64 stringy,
+    @lengthOf(x)
+    repeat body {
+        //	t
+        Z9_ {
+            repeat asx,
+            repeat crc i64_,
+            repeat rootA {
+                repeat rootA MetaDataX `line1
+                line2`,
+                match i64_ as calculatedFrom {
+                    7 : x,
+                    [7] : stringy,
+                    ""1"" : i8i8,
+                    [
+                        ""1"", 42, """ ++ [233]%N ++ runes_of_ascii "t" ++ [233]%N ++ runes_of_ascii """, 10, 255,
+                        0, 10
+                    ] : u,
+                    ""x y"" : i8i8,
+                },
+                uint64 _x `
+                `,
+                char[0] i64_ @calculatedFrom(""CRC32""),
+            },
+            x_y_z {
+                char[] T,
+            },
+        },
+        repeat u64 Foo `a\`,
+        uint8 uint8x,
+        match roots as chars {
+            1 : _x,
+            ""a\""b"" : uint8x,
+            42 : metadata,
+            // `tick` ""quote"" 'q'
+            [""\n"", 255] : zchar,
+            [""" ++ [233]%N ++ runes_of_ascii "t" ++ [233]%N ++ runes_of_ascii """, 3, 4294967296, 0123456789, ""x y""] : metadata,
+            [""it's"", ""// no comment""] : Z9_,
+        },
     },
-}
+}// a // b
 
-// `tick` ""quote"" 'q'
-// packet A { u8 x, }
-packet body {
-}
-
-packet repeatCount {
-    zchar[3] Packet,
-    @lengthOf(Header)
-    i64 Packet `two words`,
-    zchar[65535] calculatedFrom `tab	here`,
-    match x as leftPad {
-        ""// no comment"" : rootA,
-        ""`tick`"" : o,
-    },// " ++ [128512]%N ++ runes_of_ascii " emoji
-    zchar[3] u128 @calculatedFrom(""{,}"") `{ , }`,
+MetaData rootA {
+    char[4294967296] msg_type,// @lengthOf(
+    char[] u128,
+    uint64 a1,
+    int8 crc,
+    Pad msg_type `doc`,
 }
 
 //	t
-options {
-    u = char[42]// " ++ [27880; 37322]%N ++ runes_of_ascii "
-    metadata = ""a\\"";
-    Logon = string;
-    Z9_ = u16;
+/// triple
+packet x_y_z {
+    @lengthOf(crc)
+    match packetx as f32a {
+        0123456789 : A,
+        00 : u,
+        // @lengthOf(
+    },
 }")).
-Eval vm_compute in ("<<<M1364>>>" ++ check (runes_of_ascii "options { // c1
-LittleEndian = // c3
-true ; // c5a
-  // c5b
-StringPrefixLenType = // c7
-u64 // c8a
-  // c8b
-; // c9a
-  // c9b
-ArrayPrefixLenType // c10
-= // c11
-u16 // c12
-; // c13a
-  // c13b
-FixedStringPadFromLeft
-    // c14
-= // c15a
-  // c15b
-false // c16
-; FixedStringPadChar = ' ' // c20a
-  // c20b
-; } packet // c23a
-  // c23b
-Logon // c24a
-  // c24b
-{ // c25a
-  // c25b
-zchar[ 5 // c27
-] // c28a
-  // c28b
-Side2 // c29
-, // c30
-} root
-    // c32
-packet Logout
-    // c34
-{ // c35
-repeat i64 // c37a
-  // c37b
-Tail , // c39a
-  // c39b
-Logon // c40
-, // c41a
-  // c41b
-repeat i16 // c43
-OrderId
-    // c44
-,
-    // c45
-char[] venue
-    // c47
-,
-    // c48
-uint64 x // c50
-, // c51a
-  // c51b
-repeat
-    // c52
-i16 // c53
-count // c54a
-  // c54b
-, u8
-    // c56
-Flags // c57
-, // c58
-match // c59a
-  // c59b
-Flags // c60
-as // c61
-Body // c62
-{ // c63a
-  // c63b
-25
-    // c64
-: // c65a
-  // c65b
-Logon , // c67
-} , // c69
-u16 // c70
-Qty // c71a
-  // c71b
-@calculatedFrom( // c72
-""CRC32"" ) , // c75
-} // c76
-")).
-Eval vm_compute in ("<<<M1445>>>" ++ check (runes_of_ascii "
-
-  options {
-	FixedStringPadFromLeft
-    = true;
-    FixedStringPadChar= '0' 
-;	}
-packet
-Leg
-{ 
-repeat
-
-    InSym93 
-{
-	zchar[ 
-3 ]
-
-    Acct
-	,
-string
-Side2
-, i32
-Flags
-,  f32 Note
-	,
-i32
-	msgKind	,},
-
-    f64
-Note , uint16
-Px
-	,
-
-} packet  Quote	{  zchar[  2
-]
-
-OrderId ,  }packet
-
-    Ack{  repeat
-
-    string lastPx ,
-
-zchar[
-    4  ]price
-,  uint32 OrderId ,
-	Quote, int8
-Acct
-, 
-} packet Fill
-
-    { repeat	Leg  ,
-
-@rightPad (  '0')	char[ 11	] Note ,	f64
-
-    Px
-    ,
-
-    @rightPad  (
-    '\x00'	)  char[
-    5
-
-    ]
-Flags , zchar[ 9 
-]	x  ,
-
-string msgKind
-    ,
-    } root packet Order  { 
-Leg 
-, repeat
-
-    Ack
-, @rightPad
-(	'\x00'	) char[
-	3
-]Side2
-,
-	repeat  char[
-	1]
-seqNo
-,
-
-    u16  clOrdID
-,
-
-match  clOrdID as Body {
-
-    198:	Leg
-
-    ,
-23
-: 
-Quote 
-,	13 
-: Ack, 
-159:Fill,
-    } ,	u32
-
-    venue
-	@calculatedFrom(""CRC32"") 
-,
-} ")).
-Eval vm_compute in ("<<<M1419>>>" ++ check (runes_of_ascii "
+Eval vm_compute in ("<<<M313>>>" ++ check (runes_of_ascii "options { BodyLength = char[ 7] ;	}
+// c
+// @lengthOf(
+packet asx// " ++ [128512]%N ++ runes_of_ascii " emoji
+{ int16
+    x_y_z , @calculatedFrom(
+    """" ) @lengthOf(
+    /// triple
+    chars) //
+repeat repeatCount
+charz
+/// triple
 // " ++ [27880; 37322]%N ++ runes_of_ascii "
-    packet
-
-    chars  { 
-match charz  as 
-
+, @leftPad ( ) i64_@calculatedFrom(
+""\" ++ [233]%N ++ runes_of_ascii """	) `// not a comment` , tag Z9_
+`two words` ,
+@lengthOf( asx
+)@calculatedFrom(
+""`tick`""
+    )match uint8x as
+matchKey
+    {0123456789
+// packet A { u8 x, }
+// a // b
+: u8x ,1 : zchar , } ,u128 @lengthOf( u128 // packet A { u8 x, }
+)// " ++ [128512]%N ++ runes_of_ascii " emoji
+, } MetaData	msg_type  {
+string
+BodyLength  `two words` , options1// " ++ [128512]%N ++ runes_of_ascii " emoji
+i64_ ,
+    }// " ++ [128512]%N ++ runes_of_ascii " emoji
+packet roots { u `` , @calculatedFrom( ""a	b"")match len as	msg_type{
+    // c
+    """ ++ [28040; 24687]%N ++ runes_of_ascii """
+:
+charz}, crc @calculatedFrom(
+// packet A { u8 x, }
+// packet A { u8 x, }
+""it's"" ) `a\`
+,@leftPad
+( '0' )@tag( 007	) zchar[// trailing space 
+3
     // trailing space 
-
-A  // trailing space 
-{
-
-    0123456789 : rootA ,	42  :
-x
-,""1"" :
-	Logon
-
-,
-7 :	u
-
-,
-
-    ""\n""	:
-packetx,
-	} ,
-char[]  MetaDataX  @calculatedFrom("""" ) `" ++ [233]%N ++ runes_of_ascii "`
-// trailing space 
-	,
-    @leftPad ( ' ' )  char[]
-
-    Foo  , crc
-
-    ,f64
-
-string_  , // " ++ [128512]%N ++ runes_of_ascii " emoji
-    	char[]  packetx
-	,  i64
-u8x  @lengthOf(
-stringy
-
-    ) `// not a comment`  ,	repeat
-
-    zchar
-
-{
-repeat
-A
-    _x
-,
-
-    lengthOf @lengthOf(u8x
-),
-
+    ] falsey ,  @calculatedFrom(// `tick` ""quote"" 'q'
+""\n""
+    )@calculatedFrom(""CRC32""// c
+)
+    // trailing space 
     match
-    A
-as  matchKey
+    //x
+    Packet as // @lengthOf(
+stringy	{ 1:
+Pad
+, ""it's"" :f32a ,
+} , @leftPad (
+' '
+)
+    match // " ++ [27880; 37322]%N ++ runes_of_ascii "
+int as	a1 { [ 0123456789 ,255]
+    :
+    options1
+//x
+//x
+}
+    ,BodyLength
+    //
+    @calculatedFrom( """ ++ [28040; 24687]%N ++ runes_of_ascii """ ),
+float32
+    zchar
+@calculatedFrom( ""// no comment""
+)
+,	@tag( 10 ) zchar[
+    // packet A { u8 x, }
+    1  ] rootA , }
+")).
+Eval vm_compute in ("<<<M1695>>>" ++ check (runes_of_ascii "
+root packet  asx 
+{
 
-    {3
+    leftPad{ u128@calculatedFrom(
+    ""1""  ) 
+, 	 //x
+	}
+,
+
+lengthOf// packet A { u8 x, }
+      @calculatedFrom(
+""" ++ [128512]%N ++ runes_of_ascii """ )  `a\` ,
+i64 	 // `tick` ""quote"" 'q'
+Packet
+
+@lengthOf( calculatedFrom )
+
+, @calculatedFrom(  """ ++ [233]%N ++ runes_of_ascii "t" ++ [233]%N ++ runes_of_ascii """
+
+    ) stringy a1
+
+`doc`  // `tick` ""quote"" 'q'
+	,
+
+    @rightPad
+	(
+
+    // a // b
+  )  
+      // c
+    a1
+`a\`
+,
+    char	Header
+@lengthOf(
+
+x  ) `say ""hi""`
+
+    , 
+uint8x
+    Z9_ `tab	here`  , }
+
+    options
+    {  calculatedFrom	// packet A { u8 x, }
+
+	=
+0
+}
+packet metadata  {@leftPad (
+
+'\x00')
+
+f32
+
+    pack 
+//	t
+
+  //
+,
+
+@tag(65535)
+
+    u32
+    uint8x @lengthOf(
+
+    repeatCount 
+) ``	,	MetaDataX {
+	repeat 
+options1
+,match
+
+matchKey
+
+as
+
+    len { 
+""" ++ [128512]%N ++ runes_of_ascii """:  u8x
+	,1
+    :zchar, /// triple
+	[
+""a\\""	, ""x y""]
+:charz
+
+    0 :  x_y_z
+    //
+	,
+[// trailing space 
+    4294967296// `tick` ""quote"" 'q'
+	  ]
 
     : 
-Z9_ 
-,
-    ""// no comment""	:
-	As 
-00//x
-:
-i64_, 
-    // a // b
-    	// " ++ [128512]%N ++ runes_of_ascii " emoji
-	  ""a\\""  : i64_ ,
-    [
-
-    ""`tick`""  /// triple
-  ] :
-	T ,  } , 
-        // a // b
-    // packet A { u8 x, }
-    	uint32
-	T `" ++ [28040; 24687; 31867; 22411]%N ++ runes_of_ascii "`
-
-,
-	} ,uint64 
-/// triple
-  charz
-
-    ,}
-")).
-Eval vm_compute in ("<<<M1739>>>" ++ check (runes_of_ascii "options
-    {	StringPrefixLenType= u8
-
-;
-
-    ArrayPrefixLenType
-    = u32 ; FixedStringPadFromLeft =  true ;
-
-    FixedStringPadChar =' '
-
-; 
-}  packet 
-Leg { 
-}
-packet
-	Heartbeat
-
-    {
-	zchar[
-
-    6
-
-]
-msgKind
-	, @rightPad ( 
-'0'
-)char[  3  ]Qty,zchar[
-9 ]
-
-    Side2
-,  i8	Acct
-
-,
-}packet Logout
-{
-int8
-	x  ,  }
-packet Order { char[]
-Acct	,
-zchar[ 8
-]
-count  ,  u32
-	OrderId,
-uint8
-
-    lastPx,
-	u16 clOrdID	, 
-zchar[
-7 
-]
-
-Note,
-    }
-root
-	packet
-    Reject
-
-    {@leftPad	(	' '
-	)
-char[ 8 ] 
-Side2  , i8
-clOrdID,
-repeat 
-f32 x	, u32 lastPx  ,
-    match lastPx as
-Body 
-{
-    [
-    30
-,
-147  ]: Heartbeat
-,	134  :
-	Leg 
-,  183
-
-    :	Logout
-,40	: Order
-,}	, u16  Ref@calculatedFrom(
-""CRC32""
-    ), }
-")).
-Eval vm_compute in ("<<<M1786>>>" ++ check (runes_of_ascii "MetaData	u128
-
-{ 
-zchar[
-	3 ]matchKey
-	`crlf
-line` //
-  , }// packet A { u8 x, }
-
-options
-{	//x
-
-}
-
-    root
-packet
-
-    rootA{ @calculatedFrom(	""{,}""
-
-    )	repeat
-    u16
-	len
-    ,repeat
-    body 
-, i8i8
-@lengthOf(
-	packetx ),
-    metadata
-    int
-	`line1
-line2` ,
-
-uint8x
-    `two words` 	 // c
-    	,
-
-int16 //
-    	x_y_z
-
-,  repeatCount	, 
-Logon 
-{	repeat  // trailing space 
-	  i8
-Packet `line1
-line2`	,
-}
+asx
+,	[	/// triple
+    ""a\""b""
 	,
 
-    }options
-
-    {// " ++ [128512]%N ++ runes_of_ascii " emoji
-    	lengthOf 
-//
-  // trailing space 
-	=
-' '
-
-    ;
-i64_
-
-= ""{,}"" ;
-    msg_type
-=
-	'0'
-
-    ; 
-u
-    =
-// packet A { u8 x, }
-    // " ++ [27880; 37322]%N ++ runes_of_ascii "
-  i32
-    ;	_x
-	=
-""abc"" 
-	// packet A { u8 x, }
-
-	;
-    } ")).
-Eval vm_compute in ("<<<M1861>>>" ++ check (runes_of_ascii "root packet falsey {
-    @tag(255)
-    len @calculatedFrom(""`tick`""),
-    match MetaDataX as crc {
-        [7] : roots,
-    },
-    @tag(10)
-    @tag(10)
-    @tag(255)
-    repeat uint64 rootA,
-    tag `" ++ [28040; 24687; 31867; 22411]%N ++ runes_of_ascii "`,
-    float32 i64_,
-    int64 _x `doc`,
-    @leftPad(' ')
-    match i8i8 as pack {
-        // `tick` ""quote"" 'q'
-        7 : Logon,
-        ""x y"" : lengthOf,
-    },// trailing space 
-    match x_y_z as u {
-        // `tick` ""quote"" 'q'
-        // " ++ [27880; 37322]%N ++ runes_of_ascii "
-        [0123456789] : packetx,
-        007 : x_y_z,
-        10 : rootA,
-        7 : u,
-        0123456789 : falsey,
-    },// packet A { u8 x, }
-}")).
-Eval vm_compute in ("<<<M1754>>>" ++ check (runes_of_ascii "options {
-    StringPrefixLenType = u8;
-    ArrayPrefixLenType = u8;
-    FixedStringPadFromLeft = false;
-    FixedStringPadChar = ' ';
-}
-
-packet Ack {
-    char[] tag7,
-}
-
-packet Reject {
-    InSym61 {
-        repeat Ack,
-        zchar[4] f1,
-    },
-}
-
-packet Logout {
-    char[4] clOrdID,
-}
-
-root packet Cancel {
-    @leftPad(' ')
-    char[10] price,
-    u8 x,
-    u32 venue @lengthOf(Body),
-    match x as Body {
-        [92, 175] : Logout,
-        26 : Reject,
-        144 : Ack,
-    },
-    u16 count @calculatedFrom(""CR\
-        C32""),
-}")).
-Eval vm_compute in ("<<<M294>>>" ++ check (runes_of_ascii "options { rootA = 4294967296 ; falsey = ""a\""b""
-;
-As =
-// @lengthOf(
-/// triple
-""""
-;packetx
-    = ""packet"" i8i8 =true ;
-} // `tick` ""quote"" 'q'
-packet x  { repeat zchar
-rootA , char[]
-    pack  `// not a comment`
-,@tag( 00 )
-@tag( 0123456789)
-u @calculatedFrom( ""packet"" )`u8 x,` , Header{
-    zchar[ 00
-    ] body
+    ""\n"" , ""\" ++ [233]%N ++ runes_of_ascii """
 ,
-    a1	@calculatedFrom( // " ++ [128512]%N ++ runes_of_ascii " emoji
-""it's"" )
-`" ++ [233]%N ++ runes_of_ascii "`, }, } // " ++ [27880; 37322]%N ++ runes_of_ascii "
-MetaData
-    A // a // b
-{zchar /// triple
-matchKey
-    `` , int64 metadata ,char[] _x //	t
-, }
+    10 
+]
+
+:  _x,
+    } 
+,uint8
+
+metadata 
+@lengthOf(
+float )
+
+    ,zchar[
+	255
+]i8i8
+	, }
+
+    , 
+} root	packet
+f32a{ }
 ")).
-Eval vm_compute in ("<<<M1848>>>" ++ check (runes_of_ascii "
-packet	crc
-	    // a // b
-    	//x
-	  {u128
-    packetx, // " ++ [128512]%N ++ runes_of_ascii " emoji
+Eval vm_compute in ("<<<M1338>>>" ++ check (runes_of_ascii "options {
+    FixedStringPadFromLeft = true;
+    FixedStringPadChar = '0';
+}
+packet Leg {
+    InPrice0 {
+        repeat string clOrdID,
+        int16 msgKind,
+        zchar[5] Px,
+    },
+    i16 f1,
+    repeat f64 Side2,
+    string Acct,
+}
+packet Cancel {
+    zchar[4] clOrdID,
+    string seqNo,
+    Leg,
+    @leftPad('0') char[11] OrderId,
+}
+packet Quote {
+    repeat char[4] sym,
+    f64 OrderId,
+    repeat Leg,
+    repeat i64 f1,
+    int16 Note,
+    zchar[3] count,
+}
+root packet Ack {
+    @leftPad(' ') char[10] sym,
+    InPx60 {
+        Cancel,
+        repeat char[1] f1,
+        string Tail,
+        repeat InNote55 {
+            int8 count,
+            f64 f1,
+            repeat Cancel,
+        },
+        char[] tag7,
+        repeat string msgKind,
+    },
+    u8 lastPx,
+    match lastPx as Body {
+        152 : Quote,
+        173 : Cancel,
+        4 : Leg,
+    },
+    u16 Ref @calculatedFrom(""CRC32""),
+}
+")).
+Eval vm_compute in ("<<<M1371>>>" ++ check (runes_of_ascii "options {
+    FixedStringPadFromLeft = true;
+    FixedStringPadChar = '0';
+}
+packet Leg {
+    repeat InSym93 {
+        zchar[3] Acct,
+        string Side2,
+        i32 Flags,
+        f32 Note,
+        i32 msgKind,
+    },
+    f64 Note,
+    uint16 Px,
+}
+packet Quote {
+    zchar[2] OrderId,
+}
+packet Ack {
+    repeat string lastPx,
+    zchar[4] price,
+    uint32 OrderId,
+    Quote,
+    int8 Acct,
+}
+packet Fill {
+    repeat Leg,
+    @rightPad('0') char[11] Note,
+    f64 Px,
+    @rightPad('\x00') char[5] Flags,
+    zchar[9] x,
+    string msgKind,
+}
+root packet Order {
+    Leg,
+    repeat Ack,
+    @rightPad('\x00') char[3] Side2,
+    repeat char[1] seqNo,
+    u16 clOrdID,
+    match clOrdID as Body {
+        198 : Leg,
+        23 : Quote,
+        13 : Ack,
+        159 : Fill,
+    },
+    u32 venue @calculatedFrom(""CR\
+C32""),
+}
+")).
+Eval vm_compute in ("<<<M1355>>>" ++ check (runes_of_ascii "options	{StringPrefixLenType 
+= 
+u16
 
-match
-	roots
-as
-//
+;ArrayPrefixLenType = u32
+;FixedStringPadFromLeft
 
-	falsey
-    {
+= true; 
+FixedStringPadChar 
+='0'
+	;  }  packet
+    Cancel { }	packet
 
-0123456789// a // b
-    :
-Header  ""packet"" 	 // a // b
-  	: // a // b
-  Z9_
-3: A 
-, 
-    // trailing space 
-// a // b
-  ""a	b"" 
-: 
-roots
-10
+Party
+{  }packet Logon
+{ }
+    packet	Ack { 
+}
+    packet Logout	{
 
-:  _x	,  }	,@tag( 255 	 // a // b
-  ) match
-calculatedFrom
-as
-o
-{  255  : string_
-""" ++ [28040; 24687]%N ++ runes_of_ascii """
-:
-    i64_  ,
+    repeat InSym87{
 
-    } ,}
-MetaData
-T
-    {
-    float64 u ,	}
-packet Pad
-	{/// triple
-  } ")).
-Eval vm_compute in ("<<<M1262>>>" ++ check (runes_of_ascii "// top
-packet // c0
-B // c1
+    InClordid94
 {
+string clOrdID
+	,
+
+}  ,string
+
+Px ,	i16
+
+Qty,
+
+repeat
+	InCount71
+	{ repeat Cancel ,
+	uint16
+
+    Tail , char[ 2  ] x  ,
+repeat
+
+    string Ref,
+    }	,Cancel
+    ,},
+    }
+
+root
+	packet Order  {repeat
+
+    string
+
+    tag7
+
+    ,
+@leftPad
+
+    (
+
+' '
+	)
+    char[3
+] 
+Px
+,	u8
+
+    Qty ,  match Qty 
+as
+
+    Body
+    {
+[
+
+28 
+,62 ]
+    : Logon,148 : Ack , 88
+	:  Party ,
+
+184: Cancel ,
+    } , 
+u16
+
+    Note
+    @calculatedFrom(	""CRC32"") 
+,
+	}")).
+Eval vm_compute in ("<<<M1120>>>" ++ check (runes_of_ascii "// top
+root
+    // c0
+packet
+    // c1
+_x
     // c2
-u8
-    // c3
-a , } root packet // c8a
-  // c8b
-P // c9a
-  // c9b
 {
+    // c3
+match
+    // c4
+Foo
+    // c5
+as
+    // c6
+Z9_
+    // c7
+{
+    // c8
+""a	b""
+    // c9
+:
     // c10
-u8 // c11
-K , // c13
-u64 // c14a
-  // c14b
-L @lengthOf( // c16a
-  // c16b
-Body
+Pad
+    // c11
+,
+    // c12
+}
+    // c13
+,
+    // c14
+repeat
+    // c15
+x
+    // c16
+`line1
+line2`
     // c17
-) , match // c20a
-  // c20b
-K as // c22a
-  // c22b
-Body // c23
-{ // c24a
-  // c24b
-1 : // c26a
-  // c26b
-B // c27a
-  // c27b
+,
+    // c18
+@rightPad
+    // c19
+(
+    // c20
+' '
+    // c21
+)
+    // c22
+@calculatedFrom(
+    // c23
+""a\\""
+    // c24
+)
+    // c25
+metadata
+    // c26
+MetaDataX
+    // c27
 ,
     // c28
-} // c29
-, // c30
-}
+@tag(
+    // c29
+0
+    // c30
+)
     // c31
+Logon
+    // c32
+int
+    // c33
+``
+    // c34
+,
+    // c35
+}
+    // c36
+options
+    // c37
+{
+    // c38
+T
+    // c39
+=
+    // c40
+'\x00'
+    // c41
+}
+    // c42
 ")).
-Eval vm_compute in ("<<<M1393>>>" ++ check (runes_of_ascii "packet a1 {
-    char[] charz @calculatedFrom(""" ++ [28040; 24687]%N ++ runes_of_ascii """),
-    uint8x `crlf
-        line`,
-    uint64 T `line1
-        line2`,
-    @leftPad('0')
-    @calculatedFrom(""abc"")
-    @tag(3)
-    match int as len {
-        0 : chars,
-        [
-            10, 1, 0, 10, 0,
-            ""a\\""
-        ] : body,
-        007 : rootA,
-    },
-    falsey options1,
+Eval vm_compute in ("<<<M208>>>" ++ check (runes_of_ascii "packet // packet A { u8 x, }
+u8x {}root packet
+    matchKey{
+repeat zchar[ 0123456789 ] // packet A { u8 x, }
+int , char[
+// `tick` ""quote"" 'q'
+// a // b
+4294967296 ]
+asx `{ , }`
+    ,
+repeat i8i8, repeat Packet { repeat
+    leftPad {	f32 u128
+@lengthOf(As ), body`two words` ,// packet A { u8 x, }
+rootA Pad , } , char[ 00
+] msg_type `tab	here` // " ++ [128512]%N ++ runes_of_ascii " emoji
+,
+    repeat
+    //x
+    i64_ `doc` , zchar x_y_z ,}
+,
+}
+root
+packet int {
+repeat f32a {repeat f32a  asx
+`u8 x,` ,} ,@lengthOf(
+// @lengthOf(
+//	t
+msg_type// packet A { u8 x, }
+) body ,
+// c
+//
+Z9_ // c
+zchar `a\` //x
+, } //x")).
+Eval vm_compute in ("<<<M64>>>" ++ check (runes_of_ascii "
+MetaData //	t
+body { T
+    calculatedFrom, string f32a `line1
+line2`, leftPad BodyLength
+`tab	here` ,
+}options {
+}
+MetaData
+    options1	{
+char[ 3 ] MetaDataX
+// " ++ [128512]%N ++ runes_of_ascii " emoji
+/// triple
+`" ++ [28040; 24687; 31867; 22411]%N ++ runes_of_ascii "` ,  BodyLength x	`
+`,u16 tag	`say ""hi""`, u8
+float ,float32 As `
+`
+    ,
+    i8i8 Z9_ `
+`, } packet u { @tag( 42
+) options1 // c
+o `crlf
+line` ,@calculatedFrom( ""`tick`""
+// packet A { u8 x, }
+// a // b
+) repeat
+    char[]	a1
+    //x
+    ,	} options
+    { uint8x=
+true
+    A
+= // `tick` ""quote"" 'q'
+7 ; // packet A { u8 x, }
+len=	""" ++ [128512]%N ++ runes_of_ascii """
+    }")).
+Eval vm_compute in ("<<<M328>>>" ++ check (runes_of_ascii "
+packet
+Logon { repeatCount { BodyLength
+    `crlf
+line`, }
+    , zchar a1 `u8 x,`  ,
+match Foo as Foo { ""\n"" :i8i8,[
+""abc""
+    , // trailing space 
+""CRC32"" ]
+/// triple
+// " ++ [128512]%N ++ runes_of_ascii " emoji
+: // @lengthOf(
+crc
+    [ 3 ,
+//
+// " ++ [128512]%N ++ runes_of_ascii " emoji
+""x y"", 42 , ""`tick`""
+, 1 , ""a\""b"",
+    ""CRC32"" , 255 ]:repeatCount , [// " ++ [128512]%N ++ runes_of_ascii " emoji
+1
+// a // b
+// " ++ [27880; 37322]%N ++ runes_of_ascii "
+,007 ,
+""\n"",007 , 7 , ""// no comment"" ,
+255 ] :
+    uint8x 00
+: f32a , } ,
+    // a // b
+    uint16 Pad @lengthOf( uint8x)// packet A { u8 x, }
+`doc`  ,
 }")).
-Eval vm_compute in ("<<<M1777>>>" ++ check (runes_of_ascii "packet BodyLength {
+Eval vm_compute in ("<<<M335>>>" ++ check (runes_of_ascii "//	t
+packet u8x  {
+u8x { body
+@calculatedFrom(	""`tick`"") `say ""hi""`
+,match a1	as
+    asx // c
+{
+    //	t
+    0
+    :
+// " ++ [27880; 37322]%N ++ runes_of_ascii "
+// @lengthOf(
+asx }
+    ,}
+, @rightPad ( )
+    match Logon as	x { [
+    00 , ""// no comment"" , ""a\\"",0123456789
+    // trailing space 
+    ,
+    4294967296 ] : crc , 00:options1 , // " ++ [27880; 37322]%N ++ runes_of_ascii "
+42
+    :i8i8,0 : o 0123456789
+: body , } ,@tag(
+7 )float
+    @lengthOf(
+stringy) `" ++ [233]%N ++ runes_of_ascii "`,
+u
+    // c
+    @lengthOf( msg_type )
+,
+    }")).
+Eval vm_compute in ("<<<M101>>>" ++ check (runes_of_ascii "MetaData T {  a1 Packet,// " ++ [128512]%N ++ runes_of_ascii " emoji
+uint8x
+// @lengthOf(
+//x
+Pad `" ++ [233]%N ++ runes_of_ascii "` , a1
+    // " ++ [27880; 37322]%N ++ runes_of_ascii "
+    MetaDataX ,	zchar[00]metadata`u8 x,` ,Pad// trailing space 
+x `
+` ,
+    i8
+u8x ,
+}  options { As =
+    false;}root packet options1 { @calculatedFrom( ""// no comment"" ) @lengthOf( _x	)
+    @tag(007 ) repeat
+// trailing space 
+// @lengthOf(
+f32 i8i8
+    `" ++ [233]%N ++ runes_of_ascii "` ,
+    @rightPad	( ' '// " ++ [27880; 37322]%N ++ runes_of_ascii "
+) repeat Pad , }
+")).
+Eval vm_compute in ("<<<M245>>>" ++ check (runes_of_ascii "MetaData float{ int16
+// c
+// " ++ [128512]%N ++ runes_of_ascii " emoji
+chars , int8 _x
+, char	charz ,
+Header  u8x
+    , u16 _x
+,
+    // @lengthOf(
+    x_y_z repeatCount ,}	packet Foo
+{ @tag(//	t
+1  )
+string Logon	`
+`
+, }//x
+options{ zchar =  ' ' trueish = //x
+""""
+    leftPad =255 ;
+}	root packet options1 {u64 packetx// `tick` ""quote"" 'q'
+@calculatedFrom(""// no comment""  ) ``,}
+")).
+Eval vm_compute in ("<<<M1713>>>" ++ check (runes_of_ascii "packet BodyLength {
     repeatCount `// not a comment`,
     @lengthOf(lengthOf)
     @tag(65535)
@@ -941,64 +760,63 @@ root packet f32a {
     @tag(255)
     repeat u8 stringy,
 }")).
-Eval vm_compute in ("<<<M215>>>" ++ check (runes_of_ascii "root	packet
-    i8i8 { @tag( // c
-4294967296 )
-    // packet A { u8 x, }
-    Header  calculatedFrom `
-`
-, @tag(4294967296 )
-@rightPad ( ' '
-    )
-@lengthOf( float )
-    options1 zchar `" ++ [233]%N ++ runes_of_ascii "`
-//x
-/// triple
-,}	root packet
-    // " ++ [128512]%N ++ runes_of_ascii " emoji
-    x {repeat
-zchar[  10 ]	x`u8 x,`,
-    }")).
-Eval vm_compute in ("<<<M1631>>>" ++ check (runes_of_ascii "packet Foo {
-    @lengthOf(f32a)
-    char[0123456789] float `u8 x,`,
+Eval vm_compute in ("<<<M222>>>" ++ check (runes_of_ascii "packet
+body// @lengthOf(
+{ @lengthOf(
+T
+    // " ++ [27880; 37322]%N ++ runes_of_ascii "
+    ) @lengthOf(
+int ) @leftPad ( '\x00')
+asx//x
+len
+,
+repeat	zchar[ 3] int `" ++ [28040; 24687; 31867; 22411]%N ++ runes_of_ascii "` ,@lengthOf(
+    // @lengthOf(
+    options1)match
+    x
+    as //x
+leftPad // @lengthOf(
+{
+7
+:
+x_y_z , 65535:  u128 , 42 : x ,} , //
+}")).
+Eval vm_compute in ("<<<M308>>>" ++ check (runes_of_ascii "options { pack// `tick` ""quote"" 'q'
+= 0123456789
+}
+packet metadata { @leftPad ( ' ' ) stringy
+@lengthOf( _x )
+    , repeat	u8
+int
+    `{ , }` ,
+@leftPad //	t
+('0' ) repeat char msg_type `it's`,
+} MetaData x_y_z { // trailing space 
+}")).
+Eval vm_compute in ("<<<M350>>>" ++ check (runes_of_ascii "MetaData Pad
+{ i64 Packet `{ , }`
+    , // `tick` ""quote"" 'q'
+repeatCount  trueish // packet A { u8 x, }
+`say ""hi""`	, f32 pack`// not a comment` ,// `tick` ""quote"" 'q'
+u32
+calculatedFrom ,char //	t
+zchar
+,}
+")).
+Eval vm_compute in ("<<<M1632>>>" ++ check (runes_of_ascii "options {
+    Z9_ = ""packet"";
+    float = false;
+    A = ' '
 }
 
-packet i64_ {
-    @lengthOf(stringy)
-    char[] int @calculatedFrom(""{,}""),
-    @tag(007)
-    //
-    int64 stringy `" ++ [233]%N ++ runes_of_ascii "`,
-    char[] A @calculatedFrom(""\" ++ [233]%N ++ runes_of_ascii """) `doc`,// " ++ [27880; 37322]%N ++ runes_of_ascii "
-}")).
-Eval vm_compute in ("<<<M273>>>" ++ check (runes_of_ascii "root packet string_ { @leftPad (
-    ' ' )  chars { repeat
-zchar[ 0
-]  tag ,string falsey,// " ++ [128512]%N ++ runes_of_ascii " emoji
-repeat  char[ 007] body  `two words`
-    , } , @calculatedFrom(
-""// no comment"" ) Foo T
-    , // " ++ [128512]%N ++ runes_of_ascii " emoji
+// c
+MetaData pack {
+    zchar[3] leftPad,
+    zchar falsey `it's`,
+    char[] repeatCount,
+    char[65535] Z9_,
 }
-")).
-Eval vm_compute in ("<<<M169>>>" ++ check (runes_of_ascii "root packet
-    // `tick` ""quote"" 'q'
-    string_ { repeat
-char[00]  rootA
-    ,
-// " ++ [128512]%N ++ runes_of_ascii " emoji
-// " ++ [27880; 37322]%N ++ runes_of_ascii "
-}
-    MetaData u {i32 options1,
-}MetaData
-rootA
-{
-u16  chars	,
-/// triple
-//x
-}
-")).
+//	t")).
 Eval vm_compute in ("<<<M1196>>>" ++ check (runes_of_ascii "// top
 packet // c0a
   // c0b
@@ -1017,26 +835,16 @@ options // c8a
 } // c10a
   // c10b
 ")).
-Eval vm_compute in ("<<<M1384>>>" ++ check (runes_of_ascii "packet 
-uint8x
-    { match
-pack as
-msg_type{
-
-    0123456789
-:float
-    }
-
-, }packet 	 //	t
-      a1
-	{ }	options
-	{  packetx
-=
-
-char
-	;
-
-u128 =""a	b"";  }")).
+Eval vm_compute in ("<<<M1564>>>" ++ check (runes_of_ascii "packet A {
+    match k as n {
+        [
+            1, 22, 007, 4, 5,
+            66, 7, 8, 9, 10,
+            11, 12
+        ] : B,
+        2 : C,
+    },
+}")).
 Eval vm_compute in ("<<<M446>>>" ++ check (runes_of_ascii "packet uint8x
 { match pack
     as msg_type	{
@@ -1048,28 +856,26 @@ a1
     { } options {packetx
     = '\x00'	; u128= ""a	b""  ; }
 ")).
-Eval vm_compute in ("<<<M1702>>>" ++ check (runes_of_ascii "packet
-stringy {}  MetaData u8x  {
-zchar[
-65535
-	// a // b
-	  ]
-Pad
+Eval vm_compute in ("<<<M1782>>>" ++ check (runes_of_ascii "
 
-, stringy
-    string_
-`u8 x,`
+  MetaData	leftPad
+{ chars  MetaDataX// c
+  , }	packet
+repeatCount
+    {
+char[ 
+255]
+uint8x  `" ++ [233]%N ++ runes_of_ascii "`
+    ,
 
-    , 
-u8
-lengthOf 
-`
-`,
+    }
 
-char[255 ] 
-pack,
-}")).
-Eval vm_compute in ("<<<M522>>>" ++ check (runes_of_ascii "packet uint8x
+    MetaData pack
+{As Foo	,
+}
+
+")).
+Eval vm_compute in ("<<<M527>>>" ++ check (runes_of_ascii "packet uint8x
 { match pack
     as msg_type	{
     0123456789 :	float
@@ -1078,252 +884,261 @@ Eval vm_compute in ("<<<M522>>>" ++ check (runes_of_ascii "packet uint8x
 } packet //	t
 a1
     { } options {packetx
-    = '\x00'	; u128= ;  ""a	b"" }
+    = '\x00'	; u128= ""a	b""  } ;
 ")).
-Eval vm_compute in ("<<<M666>>>" ++ check (runes_of_ascii "// @lengthOf(
-packet i8i8 { u128 u128 o , }
+Eval vm_compute in ("<<<M1747>>>" ++ check (runes_of_ascii "
+packet
+
+A { match  k
+    as
+n  {
+[  ""a""
+	,  ""bb""
+,
+""c c"" ,
+    ""d""	,	""e""
+
+,
+
+""f"" ,""g"" ,
+
+""h"" ,
+""i"",
+    ""j""
+    ,""k""]:
+B
+	,
+
+2
+	:C }
+
+,
+
+    }
+")).
+Eval vm_compute in ("<<<M696>>>" ++ check (runes_of_ascii "// @lengthOf(
+packet i8i8 { u128 o , } }
 options { MetaDataX = true;
     BodyLength =""packet"" x_y_z= 007
 crc //x
 = ""abc"" ;
     msg_type =
 i16 }")).
-Eval vm_compute in ("<<<M695>>>" ++ check (runes_of_ascii "// @lengthOf(
+Eval vm_compute in ("<<<M720>>>" ++ check (runes_of_ascii "// @lengthOf(
 packet i8i8 { u128 o , }
 options { MetaDataX = true;
-    BodyLe@xngth =""packet"" x_y_z= 007
+    BodyLength =""packet"" =x_y_z 007
 crc //x
 = ""abc"" ;
     msg_type =
 i16 }")).
-Eval vm_compute in ("<<<M707>>>" ++ check (runes_of_ascii "// @lengthOf(
+Eval vm_compute in ("<<<M650>>>" ++ check (runes_of_ascii "// @lengthOf(
 packet i8i8 { u128 o , }
 options { MetaDataX = true;
-    BodyLength =MetaData x_y_z= 007
+    BodyLength =""packet"" x_y_z= 007
 crc //x
-= ""abc"" ;
+=  ;
     msg_type =
 i16 }")).
-Eval vm_compute in ("<<<M1428>>>" ++ check (runes_of_ascii "
-packet
-    A
-{ 
-match 
-k
+Eval vm_compute in ("<<<M1565>>>" ++ check (runes_of_ascii "MetaData
+leftPad
+{	chars
+MetaDataX, }	packet 
+repeatCount{ char[
 
-    as  n
+    255 ] uint8x	`" ++ [233]%N ++ runes_of_ascii "`
+,  }
+// c
+	  MetaData
+pack
+{ As
 
-{
-	[
-
-    ""a""	,22 ,	""c c""
-
-    , 4
-
-    ,	""e""
-,66
-, ""g""  ]	:B
-, 2
-
-    :
-	C}
-,
-
-    }
+Foo 
+, }
 ")).
-Eval vm_compute in ("<<<M1266>>>" ++ check (runes_of_ascii "  packet B
-    {
-u8 a
-	,
-    } 
-root  packet
+Eval vm_compute in ("<<<M1529>>>" ++ check (runes_of_ascii "
 
-P {
-u8
-    K  ,
-	match
-    K as Body
+  packet
+u
 
-{
-1
-
-:  B,
-}  ,
-	u16	L@lengthOf(	Body
-
-) ,
-	}
-")).
-Eval vm_compute in ("<<<M1261>>>" ++ check (runes_of_ascii "packet B {
-    u8 a,
-}
-root packet P {
-    u8 K,
-    u64 L @lengthOf(Body),
-    match K as Body {
-        1 : B,
-    },
-}
-")).
-Eval vm_compute in ("<<<M1155>>>" ++ check (runes_of_ascii "MetaData leftPad { chars MetaDataX , } // c
-packet repeatCount { char[ 255 ] uint8x `" ++ [233]%N ++ runes_of_ascii "` , } MetaData pack { As Foo , }")).
-Eval vm_compute in ("<<<M1187>>>" ++ check (runes_of_ascii "MetaData leftPad { chars MetaDataX , } packet repeatCount { char[ 255 ] uint8x `" ++ [233]%N ++ runes_of_ascii "` , } MetaData pack { As Foo , // c
-}")).
-Eval vm_compute in ("<<<M894>>>" ++ check (runes_of_ascii "packet A {
-  match k as n {
-    [""a"", ""bb"", ""c c"", ""d"", ""e"", ""f"", ""g"", ""h"", ""i"", ""j"", ""k""] : B
-    2 : C
-  },
-}")).
-Eval vm_compute in ("<<<M1932>>>" ++ check (runes_of_ascii "  packet  A { match k
-    as 
-n 
-{ [ 1 , 22
-
-    , 007
-
-    ,4
-,	5
-
-, 
-66 ,
-    7	] :B , 2
-:C
-
-}
-,
-}")).
-Eval vm_compute in ("<<<M1317>>>" ++ check (runes_of_ascii "packet FooBar {
-    u8 a,
-}
-packet foo_bar {
-    u16 b,
-}
-root packet R {
-    FooBar,
-    foo_bar,
-}
-")).
-Eval vm_compute in ("<<<M932>>>" ++ check (runes_of_ascii "packet A {
-    Inner {
-        u8 x `
-`,
-        Deep {
-            u8 y `
-`,
-        },
-    },
-}")).
-Eval vm_compute in ("<<<M891>>>" ++ check (runes_of_ascii "packet A {
-  match k as n {
-    [1, 22, 007, 4, 5, 66, 7, 8, 9, 10, 11] : B,
-    2 : C
-  },
-}")).
-Eval vm_compute in ("<<<M229>>>" ++ check (runes_of_ascii "// a // b
-options{
-Foo
-= '\x00'
-    pack
-= zchar[ 65535]
+{ repeat 
 // " ++ [128512]%N ++ runes_of_ascii " emoji
-//x
-;	int = ""\n"" ;	}
-")).
-Eval vm_compute in ("<<<M874>>>" ++ check (runes_of_ascii "packet A {
-  match k as n {
-    [1, 22, ""c c"", 4, 5, ""f"", 7, 8, ""i""] : B
-    2 : C
-  },
-}")).
-Eval vm_compute in ("<<<M771>>>" ++ check (runes_of_ascii "true @tag( root : repeat @calculatedFrom( match f64 int32 ] { zchar[ packet @lengthOf(")).
-Eval vm_compute in ("<<<M837>>>" ++ check (runes_of_ascii "packet A {
-  match k as n {
-    [""a"", ""bb"", 007, ""d"", ""e"", 66] : B
-    2 : C
-  },
-}")).
-Eval vm_compute in ("<<<M839>>>" ++ check (runes_of_ascii "packet A {
-  match k as n {
-    [1, 22, 007, 4, 5, 66, 7] : B,
-    2 : C
-  },
-}")).
-Eval vm_compute in ("<<<M810>>>" ++ check (runes_of_ascii "packet A {
-  match k as n {
-    [""a"", ""bb"", 007, ""d""] : B,
-    2 : C
-  },
-}")).
-Eval vm_compute in ("<<<M1386>>>" ++ check (runes_of_ascii "packet roots {
-    len leftPad `// not a comment`,
-}
+  A
+	,
+	@lengthOf( lengthOf)
+repeat
+	i64 
+i64_
+,//
 
-packet packetx {
-}")).
-Eval vm_compute in ("<<<M768>>>" ++ check (runes_of_ascii "char = char[] options char[] ] uint64 metadata match 1 zchar[ int16")).
-Eval vm_compute in ("<<<M1444>>>" ++ check (runes_of_ascii "
-packet
-	body { i32 
-    // c
+	zchar[
+3// a // b
+    ]
+body 
+, }")).
+Eval vm_compute in ("<<<M1143>>>" ++ check (runes_of_ascii "MetaData // c
+leftPad { chars MetaDataX , } packet repeatCount { char[ 255 ] uint8x `" ++ [233]%N ++ runes_of_ascii "` , } MetaData pack { As Foo , }")).
+Eval vm_compute in ("<<<M1175>>>" ++ check (runes_of_ascii "MetaData leftPad { chars MetaDataX , } packet repeatCount { char[ 255 ] uint8x `" ++ [233]%N ++ runes_of_ascii "` , } // c
+MetaData pack { As Foo , }")).
+Eval vm_compute in ("<<<M1643>>>" ++ check (runes_of_ascii "
+packet A
+{ u16 len @lengthOf(body ) 
+`tab
+	x`
 
-  f32a`{ , }` 
-, } 
-options{
-}
-")).
-Eval vm_compute in ("<<<M1091>>>" ++ check (runes_of_ascii "packet A { @leftPad() char[4] x, @rightPad( ) zchar[2] y, }")).
-Eval vm_compute in ("<<<M1506>>>" ++ check (runes_of_ascii "root packet A
-	{
-
-    u8
-
-    x
-`a
-b` ,
-
+, u32	crc@calculatedFrom(""CRC32"")	`tab
+	x`
+,  string body
+,
     }")).
-Eval vm_compute in ("<<<M341>>>" ++ check (runes_of_ascii "options  { len = // " ++ [128512]%N ++ runes_of_ascii " emoji
-""packet"" int
-= ""abc""}")).
-Eval vm_compute in ("<<<M968>>>" ++ check (runes_of_ascii "options {
-    a = ""x\
-y"";
-    b = ""x\
-y""
+Eval vm_compute in ("<<<M901>>>" ++ check (runes_of_ascii "packet A {
+  match k as n {
+    [""a"", ""bb"", 007, ""d"", ""e"", 66, ""g"", ""h"", 9, ""j"", ""k""] : B,
+    2 : C
+  },
 }")).
-Eval vm_compute in ("<<<M1388>>>" ++ check (runes_of_ascii "options {
-    a = 1// c
-    b = 2;// d
+Eval vm_compute in ("<<<M888>>>" ++ check (runes_of_ascii "packet A {
+  match k as n {
+    [""a"", ""bb"", 007, ""d"", ""e"", 66, ""g"", ""h"", 9, ""j""] : B,
+    2 : C
+  },
 }")).
-Eval vm_compute in ("<<<M1687>>>" ++ check (runes_of_ascii "packet A {u8
+Eval vm_compute in ("<<<M854>>>" ++ check (runes_of_ascii "packet A {
+  match k as n {
+    [""a"", ""bb"", ""c c"", ""d"", ""e"", ""f"", ""g"", ""h""] : B,
+    2 : C
+  },
+}")).
+Eval vm_compute in ("<<<M119>>>" ++ check (runes_of_ascii "packet u{ @tag(10 // a // b
+) tag  @lengthOf( A
+// " ++ [128512]%N ++ runes_of_ascii " emoji
+// a // b
+) , repeat options1 ,  }")).
+Eval vm_compute in ("<<<M623>>>" ++ check (runes_of_ascii "
+packet
+    asx {match u128 as lengthOf
+{
+//	t
+// `tick` ""quote"" 'q'
+255 : x ,
+    } ,	} }")).
+Eval vm_compute in ("<<<M594>>>" ++ check (runes_of_ascii "
+packet
+    asx {match u128 as lengthOf
+{
+//	t
+// `tick` ""quote"" 'q'
+: 255 x ,
+    } ,	}")).
+Eval vm_compute in ("<<<M1086>>>" ++ check (runes_of_ascii "packet A { match k as n // a
+ { // b
+ 1 // c
+ : // d
+ B // e
+ , // f
+ } // g
+ , // h
+ }")).
+Eval vm_compute in ("<<<M1610>>>" ++ check (runes_of_ascii "packet A {
+    match k as n {
+        [1, 22, ""c c"", 4] : B,
+        2 : C,
+    },
+}")).
+Eval vm_compute in ("<<<M1589>>>" ++ check (runes_of_ascii "options {
+    FixedStringPadFromLeft = true;
+}
 
-x`d" ++ [11]%N ++ runes_of_ascii "`
+root packet P {
+    char[4] z,
+}")).
+Eval vm_compute in ("<<<M464>>>" ++ check (runes_of_ascii "packet uint8x
+{ match pack
+    as msg_type	{
+    0123456789 :	float
+}
+,
+}")).
+Eval vm_compute in ("<<<M1762>>>" ++ check (runes_of_ascii "  options {  // " ++ [128512]%N ++ runes_of_ascii " emoji
 
-, // c" ++ [11]%N ++ runes_of_ascii "
-  }
+	Packet = // `tick` ""quote"" 'q'
 
+char[
+3 ]
+
+}
 ")).
-Eval vm_compute in ("<<<M959>>>" ++ check (runes_of_ascii "packet A {
+Eval vm_compute in ("<<<M796>>>" ++ check (runes_of_ascii "packet A {
+  match k as n {
+    [1, 22, ""c c""] : B
+    2 : C
+  },
+}")).
+Eval vm_compute in ("<<<M785>>>" ++ check (runes_of_ascii "packet A {
+  match k as n {
+    [""a"", 22] : B
+    2 : C
+  },
+}")).
+Eval vm_compute in ("<<<M1550>>>" ++ check (runes_of_ascii "root packet P {
+    repeat string ss,
+    repeat u16 ns,
+}")).
+Eval vm_compute in ("<<<M1242>>>" ++ check (runes_of_ascii "root packet
+    P {
+
+    char
+	c
+    , u8  x 
+,
+
+}
+")).
+Eval vm_compute in ("<<<M181>>>" ++ check (runes_of_ascii "options{ packetx=// " ++ [27880; 37322]%N ++ runes_of_ascii "
+string Logon // " ++ [27880; 37322]%N ++ runes_of_ascii "
+=  int8}")).
+Eval vm_compute in ("<<<M1125>>>" ++ check (runes_of_ascii "// top
+MetaData // c0
+u // c1
+{ // c2
+} // c3
+")).
+Eval vm_compute in ("<<<M31>>>" ++ check (runes_of_ascii "options {
+x=
+""{,}""
+matchKey=  true	; }
+")).
+Eval vm_compute in ("<<<M964>>>" ++ check (runes_of_ascii "root packet A {
     u8 x `tab
 	x`,
 }")).
-Eval vm_compute in ("<<<M1934>>>" ++ check (runes_of_ascii "// c
-packet asx {
-}/// triple")).
-Eval vm_compute in ("<<<M1830>>>" ++ check (runes_of_ascii "root packet msg_type {
-}")).
-Eval vm_compute in ("<<<M1105>>>" ++ check (runes_of_ascii "MetaData // c
-tag { }")).
-Eval vm_compute in ("<<<M1135>>>" ++ check (runes_of_ascii "MetaData u {
-// c
-}")).
-Eval vm_compute in ("<<<M1036>>>" ++ check (runes_of_ascii "packet A {
+Eval vm_compute in ("<<<M1284>>>" ++ check (runes_of_ascii "root packet P {
+    string s,
 }
-// c" ++ [12]%N)).
-Eval vm_compute in ("<<<M1024>>>" ++ check (runes_of_ascii "packet A {
-}// c" ++ [8287]%N)).
-Eval vm_compute in ("<<<M1586>>>" ++ check (runes_of_ascii "  /// triple
 ")).
-Eval vm_compute in ("<<<M252>>>" ++ check (runes_of_ascii " // c")).
-Eval vm_compute in ("<<<M86>>>" ++ check (runes_of_ascii "  ")).
+Eval vm_compute in ("<<<M1028>>>" ++ check (runes_of_ascii "packet A {
+ u8 x `d" ++ [8287]%N ++ runes_of_ascii "`, // c" ++ [8287]%N ++ runes_of_ascii "
+}")).
+Eval vm_compute in ("<<<M1065>>>" ++ check (runes_of_ascii "packet A {
+}// a// b// c
+")).
+Eval vm_compute in ("<<<M1481>>>" ++ check (runes_of_ascii "
+packet
+	A	{	// a
+
+}
+")).
+Eval vm_compute in ("<<<M1526>>>" ++ check (runes_of_ascii "options {
+    // a
+}")).
+Eval vm_compute in ("<<<M992>>>" ++ check (runes_of_ascii "// c" ++ [133]%N ++ runes_of_ascii "
+packet A {
+}")).
+Eval vm_compute in ("<<<M1465>>>" ++ check (runes_of_ascii "MetaData roots {
+}")).
+Eval vm_compute in ("<<<M1650>>>" ++ check (runes_of_ascii "root packet A {
+}")).
+Eval vm_compute in ("<<<M376>>>" ++ check (runes_of_ascii "
+// " ++ [128512]%N ++ runes_of_ascii " emoji
+")).
+Eval vm_compute in ("<<<M1020>>>" ++ check (runes_of_ascii "// c" ++ [8239]%N)).
